@@ -147,8 +147,8 @@ func c11Spec(rng *rand.Rand, i int) (*SessSpec, string) {
 
 type c11Cycle struct {
 	BRS, BSS, ASS, ARS, BRE, BSStart, ASStart, ARE int64
-	BREW                                            int64
-	Seq                                             []string
+	BREW                                           int64
+	Seq                                            []string
 }
 
 func OracleRebalance(tr *Trace) ([]Finding, int, bool) {
@@ -232,11 +232,11 @@ func OracleRebalance(tr *Trace) ([]Finding, int, bool) {
 	}
 	// (3) notifications and bursts
 	type notif struct {
-		call, ret int64
-		callW     int64
-		kind      string
-		effective bool // would the library treat it as a notification (changed membership / accepted GET)?
-		ambiguous bool
+		call, ret     int64
+		callW         int64
+		kind          string
+		effective     bool // would the library treat it as a notification (changed membership / accepted GET)?
+		ambiguous     bool
 		member, total int
 	}
 	var ns []*notif
